@@ -196,5 +196,6 @@ package kfmt
 //@   requires wfRB(&earlyPrintBuffer)
 //@   modifies outputSink, ringBuffer.rIndex, elems(uint8), outLen, out
 //@   ensures sink: outputSink == w
+//@   ensures wf: wfRB(&earlyPrintBuffer)
 //@   ensures drained: !isnil(w) ==> rlen(&earlyPrintBuffer) == 0 && outLen == old(outLen) + old(rlen(&earlyPrintBuffer)) && forall(j, int, out[j] == ite(inLog(j, old(outLen), old(rlen(&earlyPrintBuffer))), old(view(&earlyPrintBuffer, j - old(outLen))), old(out)[j]))
 //@   ensures nosink: isnil(w) ==> outLen == old(outLen) && out == old(out) && earlyPrintBuffer.rIndex == old(earlyPrintBuffer.rIndex)
